@@ -493,11 +493,17 @@ def decide(pid, tier, seed, replay, t0):
         for l in lines:
             for cl in ctx.get(l, []):       # the operations that preceded it in the run (state kept between calls)
                 impl.run(cl.split(" #")[0])
-            io_ = impl.run(l.split(" #")[0])
-            msg = mod.oracle(l, io_)
-            log("replay: %s -> impl %s ; oracle: %s" % (l, io_, msg or "holds"))
-            if msg and not mod.known_match(l, io_, msg, known):
-                failures.append((l, msg))
+            # the recorded case is run as it was found: plainly, and in each explored form / context (byte strings as
+            # bytearray and positional arguments, worker thread, forked child)
+            for how, runner in (("", impl.run_plain), (" [alternative argument forms]", impl.run_alt),
+                                (" [worker thread]", impl.run_thread), (" [forked child]", impl.run_fork)):
+                io_ = runner(l.split(" #")[0])
+                with impl.redirect(runner):
+                    msg = mod.oracle(l, io_)
+                log("replay%s: %s -> impl %s ; oracle: %s" % (how, l, io_, msg or "holds"))
+                if msg and not mod.known_match(l, io_, msg, known):
+                    failures.append((l, msg))
+                    break
         if failures:
             log("VIOLATION property=%s replay=%s" % (pid, replay))
             return 1
@@ -538,6 +544,19 @@ def decide(pid, tier, seed, replay, t0):
                 break
             out.append(i)
         return out
+
+    def stratified(r, cand, n):
+        """a sample of `cand` that holds (at least) two cases of every branch class before it is filled up at random,
+        ordered so that those come first (they survive a time budget)"""
+        by, first = {}, []
+        for i in r.sample(cand, len(cand)):
+            b = cases[i][1]
+            if by.get(b, 0) < 2:
+                by[b] = by.get(b, 0) + 1
+                first.append(i)
+        chosen = set(first)
+        rest = [i for i in r.sample(cand, len(cand)) if i not in chosen]
+        return (first + rest)[:max(n, len(first))]
     disagreements = []
     model_out = None
     if info.get("driver_ok"):
@@ -659,8 +678,8 @@ def decide(pid, tier, seed, replay, t0):
     try:
         rng3 = random.Random(seed + 99)
         cand = [i for i in range(len(lines)) if len(lines[i]) < 20000]
-        pick = rng3.sample(cand, min(len(cand), 400 if tier == "quick" else 4000))
-        pick = sorted(within_budget(pick, 6.0 if tier == "quick" else 300.0))
+        pick = stratified(rng3, cand, min(len(cand), 400 if tier == "quick" else 4000))
+        pick = within_budget(pick, 6.0 if tier == "quick" else 300.0)
         n_alt = 0
         for i in pick:
             o2 = impl.run_alt(lines[i])
@@ -687,8 +706,8 @@ def decide(pid, tier, seed, replay, t0):
         rng4 = random.Random(seed + 123)
         cand = [i for i in range(len(lines)) if len(lines[i]) < 20000 and impl_out[i].startswith("ok ") and
                 (" N " in impl_out[i] or impl_out[i].startswith(("ok N", "ok W")))]
-        pick = rng4.sample(cand, min(len(cand), 150 if tier == "quick" else 2000))
-        pick = sorted(within_budget(pick, 5.0 if tier == "quick" else 200.0))
+        pick = stratified(rng4, cand, min(len(cand), 150 if tier == "quick" else 2000))
+        pick = within_budget(pick, 5.0 if tier == "quick" else 200.0)
         n_cp = 0
         for i in pick:
             how = ("pickle", "deepcopy", "copy")[n_cp % 3]
@@ -713,8 +732,8 @@ def decide(pid, tier, seed, replay, t0):
     try:
         rng5 = random.Random(seed + 211)
         cand = [i for i in range(len(lines)) if len(lines[i]) < 20000]
-        pick = rng5.sample(cand, min(len(cand), 120 if tier == "quick" else 1500))
-        pick = sorted(within_budget(pick, 4.0 if tier == "quick" else 200.0))
+        pick = stratified(rng5, cand, min(len(cand), 120 if tier == "quick" else 1500))
+        pick = within_budget(pick, 4.0 if tier == "quick" else 200.0)
         n_th = 0
         for i in pick:
             o2 = impl.run_thread(lines[i])
@@ -734,6 +753,32 @@ def decide(pid, tier, seed, replay, t0):
         info["worker_thread_cases"] = n_th
     except Exception as e:      # noqa
         info["worker_thread_cases"] = "error %r" % e
+    # ---- execution context: the same operations in a child process made by os.fork() after the library was imported
+    # (multiprocessing fork workers, pre-fork servers): hooks that run at fork time act only there
+    try:
+        rng6 = random.Random(seed + 307)
+        cand = [i for i in range(len(lines)) if len(lines[i]) < 20000]
+        pick = stratified(rng6, cand, min(len(cand), 80 if tier == "quick" else 1000))
+        pick = within_budget(pick, 3.0 if tier == "quick" else 150.0)
+        n_fk = 0
+        for i in pick:
+            o2 = impl.run_fork(lines[i])
+            n_fk += 1
+            if o2 != impl_out[i] and o2.startswith("ok") and impl.run_plain(lines[i]) == impl_out[i]:
+                try:
+                    with impl.redirect(impl.run_fork):
+                        msg = mod.oracle(full_lines[i], o2)
+                except Exception:
+                    msg = None
+                if msg and not mod.known_match(full_lines[i], o2, msg, known):
+                    failures.append((full_lines[i], "when the call is made in a forked child process: " + msg))
+                    if len(failures) > 20:
+                        break
+                else:
+                    info["forked_child_differences"] = info.get("forked_child_differences", 0) + 1
+        info["forked_child_cases"] = n_fk
+    except Exception as e:      # noqa
+        info["forked_child_cases"] = "error %r" % e
     # ---- something broke: search harder for a concrete failing input
     searched = 0
     probed = 0
@@ -774,6 +819,8 @@ def decide(pid, tier, seed, replay, t0):
         "exhaustive": False,
         "optimized_interpreter_cases": info.get("optimized_interpreter_cases", 0),
         "alternative_form_cases": info.get("alternative_form_cases", 0),
+        "forked_child_cases": info.get("forked_child_cases", 0),
+        "forked_child_differences": info.get("forked_child_differences", 0),
         "copy_cases": info.get("copy_cases", 0), "copy_differences": info.get("copy_differences", 0),
         "worker_thread_cases": info.get("worker_thread_cases", 0),
         "worker_thread_differences": info.get("worker_thread_differences", 0),
